@@ -11,6 +11,7 @@ require (
 	github.com/go-chi/jwtauth/v5 v5.0.2
 	github.com/gofrs/uuid v4.2.0+incompatible
 	github.com/taskctl/taskctl v1.3.1-0.20210426182424-d8747985c906
+	gopkg.in/yaml.v2 v2.4.0
 	pgregory.net/rapid v1.3.0
 )
 
@@ -38,7 +39,6 @@ require (
 	golang.org/x/sync v0.1.0 // indirect
 	golang.org/x/sys v0.3.0 // indirect
 	golang.org/x/term v0.3.0 // indirect
-	gopkg.in/yaml.v2 v2.4.0 // indirect
 	mvdan.cc/sh/v3 v3.6.0 // indirect
 )
 
